@@ -66,7 +66,7 @@ def schemaOf (strAll : Bool) : Nat → GoTy → Schema
       props := fs.map (fun ft => (ft.1.json,
         if ft.1.asString && (strAll || stringable ft.2) then ({ ty := "string" } : Schema) else schemaOf strAll n ft.2)) }
   | _+1, .time => { ty := "string" }
-  | _+1, .bytes => { ty := "array", items := some { ty := "integer" } }
+  | _+1, .bytes => { ty := "string" }     -- format byte (base64)
   | _+1, .iface => {}
 
 def isEmptyVal : GoVal → Bool
